@@ -85,11 +85,12 @@ Step ==
        /\ UNCHANGED <<fails, drift>>
      ELSE IF e.op = "faultrun" THEN
        \* C13: a whole run in which one I/O operation was made to fail (or none was reached):
-       \* the failure was reported by some call, or nothing is missing from the sorted output.
+       \* the failure was reported by some call, or nothing is missing from the sorted output; and whatever
+       \* happened (a Clear that failed half way included), after CleanUp the directory no longer exists.
        /\ UNCHANGED <<mode, held, pos, len, ac, ok, s, insync, acl, drift>>
        /\ fails' = IF /\ e.injected => (e.reported # "" \/ e.complete)
                       /\ ~e.injected => (e.reported = "" /\ e.complete)
-                     THEN fails
+                     THEN (IF e.dirleft THEN Append(fails, <<l, "the temporary directory still exists after CleanUp">>) ELSE fails)
                      ELSE Append(fails, <<l, "I/O failure hidden: no call reported it and values are missing">>)
      ELSE IF ~ok THEN UNCHANGED <<mode, held, pos, len, ac, ok, s, insync, acl, fails, drift>>
      ELSE
